@@ -1039,7 +1039,9 @@ var basicObjects = []*ObjectSchema{
 			),
 			"multipliers": NewPropertySchema(
 				NewMapSchema(
-					NewIntSchema(nil, nil, nil),
+					// A multiplier is a positive number of base units. Zero and negative values cannot be
+					// used by the formatter (division by zero) or the parser (invalid regexp group name).
+					NewIntSchema(IntPointer(1), nil, nil),
 					NewRefSchema("Unit", nil),
 					nil,
 					nil,
